@@ -664,7 +664,13 @@ class Sequences(Sub):
                 soft.add(ctrl + ":counter_differs:initial")
         hist, nreset, post = [], 0, 0
         dt = {"t32": torch.float32, "t64": torch.float64}.get(form, torch.float32)
-        for ev in case["ev"]:
+        for ei_, ev in enumerate(case["ev"]):
+            if ei_ == 2 and ctrl == "R" and (int(steps) + len(case["ev"])) % 5 == 0:
+                # the sequence continues on a copy.deepcopy of the controller (plain object / nn.Module semantics: same state)
+                import copy as _copy
+                with rec.sut("copy.deepcopy(controller)"):
+                    c = _copy.deepcopy(c)
+                rec.label("controller_deepcopied_mid_sequence")
             if ev == "reset":
                 if ctrl != "R":
                     rec.discard_case("reset on a controller without reset()")
